@@ -122,3 +122,23 @@ extern "C" void h_overlapping_lives(void) {
    vp_leakcheck();
    vp_done();
 }
+// large tables: one owning tree with C19_LARGE keys inserted in ascending or descending order (tall left / right spines), directly and through
+// a Lexicon (a chain of pointer types: keys are addresses in allocation order); destruction returns every node
+#ifndef C19_LARGE
+#define C19_LARGE 6000
+#endif
+extern "C" void h_destroy_large(void) {
+   bool descending = vp_flag();
+   vp_mark();
+   {
+      util::rb_tree::container<int> tree;
+      auto cmp = [](int stored, int key) { return stored < key ? -1 : stored > key ? 1 : 0; };
+      for (int i = 0; i < C19_LARGE; ++i) tree.insert(descending ? C19_LARGE - i : i, cmp);
+      vp_assert(tree.size() == C19_LARGE, 30);
+      impl::Lexicon lx;
+      const ipr::Type* t = &lx.int_type();
+      for (int i = 0; i < C19_LARGE / 4; ++i) t = descending ? static_cast<const ipr::Type*>(&lx.get_pointer(*t)) : static_cast<const ipr::Type*>(&lx.get_reference(lx.get_pointer(*t)));
+   }
+   vp_leakcheck();
+   vp_done();
+}
